@@ -253,6 +253,8 @@ func runC05(c *Ctx) {
 	// R16 (shared with C17.R1): Client.Chmod sends what os.Chmod would set — permission and special bits
 	c.withOnlyKeys("R1", "R16", []string{"toChmodPerm"}, func() { runC17(c) })
 	checkPortsOfOsFollowTheOriginal(c, "R17")
+	// R18 (= C16.R23): like os.ReadDir, a listing that fails reports the failure; only io.EOF ends it quietly
+	checkOnlyEOFEndsListing(c, "R18")
 
 	// ---------- R1 request -> os table ----------
 	top, specific := requestTypes(c, "R1")
